@@ -84,7 +84,7 @@ func init() {
 			return Slice{A: s}
 		},
 		"internal/stringslite.Clone": func(e *Exec, _ *frame, _ *ssa.Function, a []Value) Value { return a[0] },
-		"strings.Clone": func(e *Exec, _ *frame, _ *ssa.Function, a []Value) Value { return a[0] },
+		"strings.Clone":              func(e *Exec, _ *frame, _ *ssa.Function, a []Value) Value { return a[0] },
 		"strings.Index": func(e *Exec, _ *frame, _ *ssa.Function, a []Value) Value {
 			return e.mkInt(int64(e.indexSub(a[0].(Str).B, a[1].(Str).B)))
 		},
@@ -204,6 +204,22 @@ func init() {
 		"github.com/google/uuid.NewString": func(e *Exec, _ *frame, _ *ssa.Function, a []Value) Value {
 			e.uniq++
 			return e.mkStr(fmt.Sprintf("uuid-%04d", e.uniq))
+		},
+		"unicode/utf8.DecodeRuneInString": func(e *Exec, _ *frame, _ *ssa.Function, a []Value) Value {
+			s := a[0].(Str)
+			if len(s.B) == 0 {
+				return Tuple{e.c.BV(0xFFFD, 32), e.mkInt(0)}
+			}
+			r, n := e.decodeRune(s.B)
+			return Tuple{r, e.mkInt(int64(n))}
+		},
+		"unicode/utf8.DecodeRune": func(e *Exec, _ *frame, _ *ssa.Function, a []Value) Value {
+			b := sliceBytes(a[0])
+			if len(b) == 0 {
+				return Tuple{e.c.BV(0xFFFD, 32), e.mkInt(0)}
+			}
+			r, n := e.decodeRune(b)
+			return Tuple{r, e.mkInt(int64(n))}
 		},
 		"unicode/utf8.ValidString": func(e *Exec, c *frame, f *ssa.Function, a []Value) Value {
 			return vpValidUTF8(e, c, f, a)
